@@ -4,7 +4,7 @@ import ast
 
 from ..program import AnalysisError, walk_local, dotted
 from ..analysis import Spec, src, const_value
-from ..rules import (template_sites, GWF, EXC, mpt, need_func, stores_to, raise_class,
+from ..rules import (flow_canon, canon, template_sites, GWF, EXC, mpt, need_func, stores_to, raise_class,
                      parent_map, kw, is_const, strip_wrappers)
 from . import common, gitcmds
 from .c12 import _first_exit
@@ -480,14 +480,29 @@ def queue_validation_guards(prog, an, rep):
              if isinstance(x.func, ast.Attribute)}
     ok = 'self._horizontal_validation' in calls and \
         'self._vertical_validation' in calls
-    loops = [src(n.iter) for n in walk_local(v.node, include_root=False)
-             if isinstance(n, ast.For)]
+    loops = []
+    hv = vv = False
+    for n in walk_local(v.node, include_root=False):
+        if not isinstance(n, ast.For):
+            continue
+        it = flow_canon(an, v, n.iter)
+        loops.append(it)
+        inner = {src(x.func) for x in ast.walk(n) if isinstance(x, ast.Call)}
+        if 'self._horizontal_validation' in inner and it in (
+                'self._queues', 'self._queues.keys()'):
+            hv = True
+        if 'self._vertical_validation' in inner and \
+                it == 'self.merge_paths':
+            vv = True
     rep.evaluated()
-    rep.check(ok and 'versions' in loops and 'self.merge_paths' in loops, R,
+    rep.check(ok and hv and vv, R,
               v.qname + ': every version horizontally, every merge path '
               'vertically', v.where(), 'validate loops over %s and calls '
               '%s' % (loops, sorted(calls)))
-    errs_true = an.branch_nodes(v, lambda e: src(e) == 'errs', True)
+    acc = {src(x.args[0]) for x in prog.calls_in(v)
+           if src(x.func).endswith('IncoherentQueues') and x.args}
+    errs_true = an.branch_nodes(v, lambda e: src(e) in acc, True,
+                                expand=None)
     okr = False
     for b in errs_true:
         first = _first_exit(an, v, c, b)
